@@ -441,6 +441,9 @@ class Multiplexer(wiring.Component):
                     chunk = Multiplexer._Shadow.Chunk(self, chunk_offset, chunk_registers)
                     self._chunks[chunk_offset] = chunk
             else:
+                if self._size > max(reg_range.stop for reg_range in ranges):
+                    raise ValueError(f"Shadow register {self.name!r} cannot be balanced so that at "
+                                     f"most {self.overlaps} CSR registers overlap on a chunk")
                 self._size *= 2
                 self.prepare()
 
